@@ -95,6 +95,42 @@ fn run(rng: &mut Rng, idx: u64, tier: Tier) -> CaseOut {
     let net = crate::net::gen_net(rng, &nopts);
     let count = rng.range(1, 6);
     let mut batch = gen_batch(rng, &fopts, &net.names, count);
+    if rng.chance(1, 3) {
+        // the same one-variable sub-formula three or more times, under different variable names
+        // (nesting depths 1, 2, 3 in random order), spread over the batch
+        let mut gopts = fopts.clone();
+        gopts.max_quant_depth = 0;
+        gopts.hybrids = true;
+        gopts.max_size = 5;
+        gopts.domain_pct = 0;
+        gopts.dup_pct = 0;
+        let mut g = gen_open_formula(rng, &gopts, &net.names, &["v".to_string()]);
+        if g.free_vars().is_empty() {
+            g = un(*rng.pick(&[Un::EX, Un::AX, Un::EF]), var("v"));
+        }
+        let names = ["x", "y", "z"];
+        let mut extra = Vec::new();
+        for _ in 0..rng.range(3, 5) {
+            let depth = rng.range(1, fopts.max_quant_depth.max(1).min(3));
+            let target = names[depth - 1];
+            let mut f = g.rename_vars(&|v| if v == "v" { target.to_string() } else { v.to_string() });
+            if rng.coin() {
+                f = bin(*rng.pick(&[Bin::And, Bin::Or]), f, F::Prop(rng.pick(&net.names).clone()));
+            }
+            for d in (0..depth).rev() {
+                f = F::Hyb(*rng.pick(&[Hyb::Bind, Hyb::Exists, Hyb::Forall]), names[d].to_string(), None, Box::new(f));
+            }
+            extra.push(f);
+        }
+        // some of them inside one formula, the rest as own formulae
+        while extra.len() > 1 && rng.coin() {
+            let a = extra.pop().unwrap();
+            let b = extra.pop().unwrap();
+            extra.push(bin(*rng.pick(&[Bin::And, Bin::Or, Bin::Imp]), a, b));
+        }
+        batch.extend(extra);
+        rng.shuffle(&mut batch);
+    }
     // literal repetition of a formula inside the batch
     if batch.len() >= 2 && rng.chance(1, 4) {
         let dup = rng.pick(&batch).clone();
